@@ -545,7 +545,6 @@ static void run_op(void)
                 free(p);
                 after_op();
         } else if (strcmp(o, "N") == 0) {
-                puts("N");
                 fill_buffers();
                 cat_init(&at, &desc, &iface, use_mutex ? &mutex_if : NULL);
                 after_op();
@@ -613,7 +612,14 @@ int main(void)
                         in_ops = 0;
                         continue;
                 }
-                if (in_ops) { run_op(); continue; }
+                if (in_ops) {
+                        int i;
+                        putchar('>');
+                        for (i = 0; i < ntok; i++) printf(" %s", tok[i]);
+                        putchar('\n');
+                        run_op();
+                        continue;
+                }
                 if (strcmp(tok[0], "cap") == 0) {
                         if ((size_t)atoi(tok[1]) != (size_t)CAT_UNSOLICITED_CMD_BUFFER_SIZE) {
                                 fprintf(stderr, "scenario cap %s but driver built with %zu\n", tok[1], (size_t)CAT_UNSOLICITED_CMD_BUFFER_SIZE);
